@@ -33,9 +33,17 @@ import (
 func TestC49(t *testing.T) {
 	m := mon.New(t, "C49")
 	defer m.Done()
-	m.Rule("session = one acme.Client with one account key (RSA 2048/3072/odd sizes and exponents, P-256/384/521; plain, crypto.Signer-only wrapper, or a nonce-choosing ECDSA signer) talking to a recording fake CA through an in-memory transport or a loopback httptest server: Register (with/without external account binding), GetReg, AuthorizeOrder, GetOrder/GetAuthorization/GetChallenge (POST-as-GET), Accept, UpdateReg, RevokeCert (account key and certificate key), AccountKeyRollover, DeactivateReg with random contacts, identifiers, URLs, nonces and key IDs; every recorded POST body is judged: flattened JWS JSON with exactly protected/payload/signature, strict base64url, protected header = alg+nonce+url+(jwk xor kid), alg per key, url/kid/nonce as given by the server, jwk = RFC 7518 members with fixed-width coordinates / minimal integers, signature length 2·⌈bits/8⌉ (modulus length for RSA), verification by go-jose v4 with the account public key (stdlib verification as tie-breaker), payload content per operation, EAB inner JWS = HS256 over the account JWK, key-change inner JWS per RFC 8555 §7.3.5; thumb = JWKThumbprint vs RFC 7638 reference vs go-jose. Keys with X/Y one byte short come from trial generation, two bytes short from embedded scalars; signatures with short r/s are collected from ≥3000 real signatures per curve and forced by a nonce-choosing signer. Distinct key = op × key class × form × signer wrapper; non-trivial = reached verification")
+	m.Rule("conc = shared-value concurrency: ONE acme.Client with ONE account key (plain, crypto.Signer-only, or yielding inside Sign) used by 6 goroutines at once after a barrier for POST-as-GET reads, Accept posts and JWKThumbprint/key authorizations; unique URLs match every recorded body to its expectation, judged as below; the server's ledger must show every nonce used exactly once; half of the rounds under GOMAXPROCS(1); also built with the race detector (variant verif,race runs only this stream). session = one acme.Client with one account key (RSA 2048/3072/odd sizes and exponents, P-256/384/521; plain, crypto.Signer-only wrapper, or a nonce-choosing ECDSA signer) talking to a recording fake CA through an in-memory transport or a loopback httptest server: Register (with/without external account binding), GetReg, AuthorizeOrder, GetOrder/GetAuthorization/GetChallenge (POST-as-GET), Accept, UpdateReg, RevokeCert (account key and certificate key), AccountKeyRollover, DeactivateReg with random contacts, identifiers, URLs, nonces and key IDs; every recorded POST body is judged: flattened JWS JSON with exactly protected/payload/signature, strict base64url, protected header = alg+nonce+url+(jwk xor kid), alg per key, url/kid/nonce as given by the server, jwk = RFC 7518 members with fixed-width coordinates / minimal integers, signature length 2·⌈bits/8⌉ (modulus length for RSA), verification by go-jose v4 with the account public key (stdlib verification as tie-breaker), payload content per operation, EAB inner JWS = HS256 over the account JWK, key-change inner JWS per RFC 8555 §7.3.5; thumb = JWKThumbprint vs RFC 7638 reference vs go-jose. Keys with X/Y one byte short come from trial generation, two bytes short from embedded scalars; signatures with short r/s are collected from ≥3000 real signatures per curve and forced by a nonce-choosing signer. Distinct key = op × key class × form × signer wrapper; non-trivial = reached verification")
 	m.Assume("go-jose v4 (JWS parsing/verification, JWK thumbprint), crypto/ecdsa, crypto/rsa, crypto/hmac of the standard library; h/ref/jwsref (RFC 7638 vector, RFC 4648 vectors) for JWK members and thumbprints")
 	w := &c49w{t: t, m: m}
+	if mon.RaceBuild {
+		// race-detector variant: only the shared-client concurrency stream
+		w.concurrent()
+		w.concGates()
+		return
+	}
+	w.concurrent()
+	w.concGates()
 	w.sessions()
 	w.thumbprints()
 	for _, k := range []string{"p256", "p384", "p521"} {
@@ -102,6 +110,7 @@ type c49exp struct {
 	wrapper   string
 	keyClass  string
 	transport string
+	conc      bool // request made by one of several goroutines sharing the client
 }
 
 func normJSON(v any) any {
@@ -144,6 +153,11 @@ func (w *c49w) judgeJWS(body []byte, e c49exp, inner bool, ca *fakeCA) (f *jwsre
 	bad := func(key string, extra ...any) {
 		if len(extra) > 0 {
 			wit["detail"] = fmt.Sprint(extra...)
+		}
+		if e.conc {
+			// the same request shape is established single-threaded by the session stream: what differs here is the overlap
+			wit["single_threaded_key"] = key
+			key = "concurrent-jws-differs:shared:acme.Client." + e.op
 		}
 		m.Violation(key, wit)
 		ok = false
